@@ -2102,6 +2102,30 @@ func oracleC16(r *rng, n int, tier string) *oracleResult {
 			t.res.Evaluations += 5
 			t.eval(exCompactHistory(h), fs, nil)
 		}
+		// a root in which a definition carries an `id`, then a cyclic root without any (on the same host): what the first call learnt
+		// about its root - where it is anchored - is nothing to the second, whose remaining reference is spelled from its own root
+		if gi == 0 {
+			type m = map[string]interface{}
+			withID := exFromGeneric(m{"http://example.test/api/a.json": m{"swagger": "2.0", "info": m{"title": "a", "version": "1"}, "paths": m{},
+				"definitions": m{"pet": m{"id": "http://example.test/models/v2/pet.json", "type": "object", "properties": m{"n": m{"type": "string"}}}}}}, "http://example.test/api/a.json").call("expand_spec", exOpts{})
+			cyclic := exFromGeneric(m{"http://example.test/api/tree.json": m{"swagger": "2.0", "info": m{"title": "t", "version": "1"}, "paths": m{},
+				"definitions": m{"tree": m{"type": "object", "properties": m{"kids": m{"type": "array", "items": m{"$ref": "#/definitions/tree"}}}}}}}, "http://example.test/api/tree.json").call("expand_spec", exOpts{})
+			skip := exFromGeneric(m{"http://example.test/api/s.json": m{"swagger": "2.0", "info": m{"title": "s", "version": "1"},
+				"definitions": m{"leaf": m{"type": "string"}},
+				"paths":       m{"/a": m{"get": m{"responses": m{"200": m{"description": "d", "schema": m{"$ref": "#/definitions/leaf"}}}}}}}}, "http://example.test/api/s.json").call("expand_spec", exOpts{Skip: true})
+			withID.InProcess, cyclic.InProcess, skip.InProcess = true, true, true
+			pool = append(pool, withID, cyclic, skip)
+			n := len(pool)
+			h := &exHistory{Pool: pool, History: []int{n - 3, n - 2, n - 1, n - 3, n - 2, n - 1, n - 3, n - 2}}
+			fs := checkC16With(h, fresh)
+			for i := range fs {
+				if strings.HasPrefix(fs[i].Shape, "history-changes-result") {
+					fs[i].Shape = "history-changes-result:after-a-root-with-id"
+				}
+			}
+			t.res.Evaluations += 7
+			t.eval(exCompactHistory(h), fs, nil)
+		}
 		// callers who pass no options at all (the documents they name are read through the package-level loader, relative references
 		// start from the working directory): one whose root refers into a sub-folder, then one whose root refers to a document
 		// next to it
